@@ -1,27 +1,35 @@
 /-
 C14 — property theorems for `c_var2h` / `dutils.var2h`.
 Model: `HydroVerif/Model/C14.lean`; vocabulary and loop invariant: `Lemmas/C14.lean`; the interpolant as one
-function ℝ → ℝ: `Lemmas/C14Real.lean`.
+function ℝ → ℝ: `Lemmas/C14Real.lean`; the kernel on the caller's buffer and call histories: `Lemmas/C14Buf.lean`;
+the control skeleton and arithmetic-free missing pattern: `Lemmas/C14Skel.lean`, `Lemmas/C14Arith.lean`.
 
 Reading guide.  `obs` is the list of observations `(epoch second, value or NaN)`, `pairs obs` its
 observation intervals, period `i` is `[perS P hstart i, perE P hstart i)` in whole seconds.
 `contrib c S E a b` is the exact integral over `[S, E]` of the affine piece through `a` and `b`
 (`trapArea`, Mathlib's interval integral) — or, for rainfall, the share of the increment `b.2` that falls in
 `[S, E]` (times `P`).  `invalid c a b` is the kernel's validity test (`invalid_iff`).  `interp obs` is the
-piecewise-linear interpolant.  All statements hold for every ordered field (`ℝ`, `ℚ`, …) unless they
-mention an integral, for every series length and every number of periods.  Every model function named here
-(`kernel`, `wrapper`, `wrapperIdx`, `startScan`, `origin`, `nvalhOf`, `wallSec`) is executed by the driver
-and compared with the real code.
+piecewise-linear interpolant.  Statements in `section field` hold for every ordered field (`ℝ`, `ℚ`, …) unless they
+mention an integral; statements in `section anyarith` hold for EVERY instance of the model (no law of the
+arithmetic is used, or only `ExactInt`: whole seconds are cast / compared / added / subtracted exactly — true of IEEE
+doubles below 2^53), for every series length and every number of periods.  Every model function named here
+(`kernel`, `wrapper`, `wrapperSeries`, `wrapperIdx`, `seriesIdx`, `wrapperArg`, `maxgapOfArg`, `labels`, `freqSec`,
+`startScan`, `origin`, `nvalhOf`, `wallSec`, `kernelInto`, `pyxVar2h`, `step`, `run`, `kernelMiss`, `marks`, `toQ`,
+`cfgQ`) is executed by the driver and compared with the real code.
 
 CLAUSE → THEOREMS (what remains outside)
 
 1. "every value var2h returns is either missing or the time-average over its period of the piecewise-linear
    interpolant"
-   → `value_is_average_of_interpolant`, `wrapper_value_is_average_of_interpolant` (ℝ: h = (∫_S^E interp obs)/P);
+   → on the returned object: `series_value_is_average_over_its_period` (ℝ: every pair `(t, h)` of the returned series
+     has h = (∫_t^{t+P} interp obs)/P), `series_labels_are_period_starts` (pair i is (origin + i·P, value i)),
+     `freqSec_eq_period`, `labels_getElem?`;
+     `value_is_average_of_interpolant`, `wrapper_value_is_average_of_interpolant` (ℝ: h = (∫_S^E interp obs)/P);
      `value_is_period_integral` (any field, closed form), `value_is_integral_of_interpolant`,
      `trapArea_eq_integral`, `overlaps_tile(_covered)`, `lin_left/right`, `kernel_total`,
      `wrapper_spec`, `wrapper_is_kernel_plus_final`.
-   outside: IEEE rounding (Float instance compared with the code, bit-equal so far).
+   outside: IEEE rounding of the VALUES (Float instance compared with the code, bit-equal so far).  Which periods
+   are missing is NOT subject to rounding: see 4.
 2. "(for rainfall, the period total of the increments spread uniformly over their intervals)"
    → `rainfall_value_is_prorated_total`.
 3. "so that the time-integral of the series is conserved" → `conservation` (any run of non-missing periods).
@@ -29,27 +37,51 @@ CLAUSE → THEOREMS (what remains outside)
    (missing or negative end value, or longer than maxgapsec)"
    → `invalid_iff`, `valid_iff` (what invalid means); `invalid_overlap_makes_missing`, `gap_makes_missing`
      (⇐); `missing_has_cause`, `valid_data_gives_value` (⇒); `missing_iff_invalid_overlap` (⇔ when no invalid
-     interval merely ends on the period start); `nonmissing_covered_and_valid`;
-     final period: `wrapper_final_missing`; hourly: `hourly_periods_within_data`, `wrapper_hourly_missing_cause`
+     interval merely ends on the period start); `nonmissing_covered_and_valid`; `series_missing_has_cause` (on the
+     returned object, by label);
+     in ANY arithmetic with exact whole seconds (floats included, no field law): `missing_pattern_is_skeleton` (the
+     pattern is `kernelMiss` of the `marks`: integer comparisons + the per-interval validity test),
+     `missing_pattern_same_as_exact` (= the pattern of the exact-rational kernel on stand-in values),
+     `kernel_total_any_arith`, `missing_has_cause_any_arith`, `invalid_overlap_makes_missing_any_arith`,
+     `valid_data_gives_value_any_arith`;
+     `maxgapsec` passed as a float: `maxgap_truncation_harmless`, `gap_test_with_float_maxgap`;
+     final period: `wrapper_final_missing`, `kernel_final_period_untouched` (the kernel never writes it: it keeps
+     the caller's NaN); hourly: `hourly_periods_within_data`, `wrapper_hourly_missing_cause`
      (no other cause exists); half-hourly: `halfhourly_periods_within_data`, `halfhourly_periods_overhang` —
      only period `nvalh-2` can extend past the last stamp (by < 1800 s) and is then missing although no interval
      is invalid: the interpolant does not exist there, clause 1 forces it (this is the repaired defect).
    outside: intervals that merely touch a period boundary (left open by the property; the model says exactly
-   what the code does: `missing_has_cause` has `≤`, the converse `<`); "negative" is `< -1e-8`.
+   what the code does: `missing_has_cause` has `≤`, the converse `<`); "negative" is `< -1e-8`; that IEEE doubles
+   satisfy `ExactInt` for |x| ≤ 2^53 (core `Float` is opaque; the driver runs skeleton, Float kernel and exact kernel
+   side by side on every kernel case and the harness compares all three with the real code's NaN pattern).
 5. "the result does not depend on the storage resolution or time zone of the index"
-   → `index_independence`, `index_independence_two`, `wallSec_whole`, `wallSec_floor`: the stored index (unit,
-     raw int64 count of the UTC instant, UTC offset of each stamp) is part of the model (`wrapperIdx`).
+   → `index_independence`, `index_independence_two`, `series_index_independence`, `wallSec_whole`, `wallSec_floor`:
+     the stored index (unit, raw int64 count of the UTC instant, UTC offset of each stamp) is part of the model
+     (`wrapperIdx`, `seriesIdx`).
    outside: pandas/numpy do compute `raw`, the offsets and the final `date_range` (external; the correspondence
-   compares the seconds handed to the kernel with `wallSec` for every unit/zone, offsets taken from zoneinfo).
+   compares the seconds handed to the kernel with `wallSec` for every unit/zone, offsets taken from zoneinfo, and
+   the returned index with the model's `labels`).
 6. quantifier "≥ 2 observations, ≥ 2 periods, integer-second stamps, duplicates, stamps on boundaries, any
    values, P ∈ {1800,3600}, rainfall flag, maxgapsec ≥ 3600": hypotheses `Sorted`, two leading observations,
    `CfgOK`, `3600 ≤ maxgap`, `1 ≤ nvalh` only; stamps are `Int` by type.  Wrapper arithmetic: `origin_spec`,
-   `nvalhOf_spec`, `wrapper_empty`, `startScan_position`.  Rejected input (not a clause of the property, glue of
-   the wrapper): `wrapper_rejects_bad_period`, `wrapper_rejects_small_maxgap`, `kernel_rejects_late_start`.
-Each group is followed, at the end of the file, by `example`s on one worked series (`exObs`).
+   `nvalhOf_spec`, `wrapper_empty`, `startScan_position`.  Hypotheses the text does not state, each discharged or shown
+   necessary: first stamp ≤ origin (`origin_spec` gives it in the wrapper; `kernel_rejects_late_start` at the excluded
+   point), `Sorted` (`kernel_rejects_decreasing_pair`; the example after it shows a decreasing pair the walk never
+   meets is not rejected), `3600 ≤ maxgap` (`wrapper_rejects_small_maxgap`), `1 ≤ nvalh` (`wrapper_empty`), `CfgOK`
+   (`wrapper_rejects_bad_period`; rainfall flag: `kernel_guard_error_leaves_buffer`).
+7. (glue, not a clause) the kernel as it is called — results written into the caller's buffer, the Cython entry
+   point, call histories on one set of buffers, for EVERY arithmetic: `kernel_writes_prefix_only`,
+   `kernel_stale_buffer_irrelevant`, `kernel_return_code`, `kernel_guard_error_leaves_buffer`, `kernel_buffer_length`,
+   `pyx_rejects_length_mismatch`, `pyx_is_kernel`, `call_keeps_inputs`, `history_answer` (after ANY list of
+   operations — edits, scribbling over the output, other calls, rejected calls — a call answers with the kernel's
+   values for the arrays as they are now), `history_call_values_as_required` (… and these are as the property requires).
+Each group is followed, at the end of the file, by `example`s on one worked series (`exObs`; `exObs8` in the rounded
+arithmetic `Rnd8`).
 -/
 import HydroVerif.Lemmas.C14
 import HydroVerif.Lemmas.C14Real
+import HydroVerif.Lemmas.C14Buf
+import HydroVerif.Lemmas.C14Arith
 import Mathlib.Analysis.SpecialFunctions.Integrals.Basic
 
 namespace HydroVerif.C14
@@ -684,6 +716,423 @@ theorem wrapper_value_is_average_of_interpolant (c : Cfg ℝ) (hc : CfgOK c) (hr
       | succ k => rw [hk'] at hi; simp at hi
   exact value_is_average_of_interpolant c hc hr hstart _ a b rest hs h2 out hk i h hi'
 
+section field
+set_option linter.unusedSectionVars false
+variable {α : Type} [Field α] [LinearOrder α] [IsStrictOrderedRing α]
+
+/-! ### the returned series: every value with its time label -/
+
+/-- for the two admissible periods the spacing of the returned index is the period -/
+theorem freqSec_eq_period (c : Cfg α) (hc : CfgOK c) : freqSec c.P = c.P := by
+  rcases hc.period with h | h <;> simp [freqSec, h]
+
+/-- label `i` of `date_range(hstart, freq, periods = n)` -/
+theorem labels_getElem? (hstart P : Int) (n i : Nat) (h : i < n) :
+    (labels hstart P n)[i]? = some (hstart + (i : Int) * freqSec P) := by
+  simp [labels, h]
+
+/-- **Each returned value carries the start of its own period as label.** `dutils.var2h` returns `nvalh`
+pairs; pair `i` is `(origin + i·P, value i of the wrapper)` — the value that the theorems above describe for
+the period `[origin + i·P, origin + (i+1)·P]`. -/
+theorem series_labels_are_period_starts (c : Cfg α) (hc : CfgOK c) (hgap : 3600 ≤ c.maxgap) (a b : Obs α)
+    (rest : List (Obs α)) (hs : Sorted (a :: b :: rest))
+    (hn : 1 ≤ nvalhOf a.1 (lastTime (a :: b :: rest)) c.P)
+    (ser : List (Int × Option α)) (hw : wrapperSeries c (a :: b :: rest) = .ok ser) :
+    (ser.length : Int) = nvalhOf a.1 (lastTime (a :: b :: rest)) c.P ∧
+    ∃ res, wrapper c (a :: b :: rest) = .ok (origin a.1, res) ∧
+      ∀ i t o, ser[i]? = some (t, o) → t = perS c.P (origin a.1) i ∧ res[i]? = some o := by
+  obtain ⟨out, hw', hlen, _⟩ := wrapper_spec c hc hgap a b rest hs hn
+  unfold wrapperSeries at hw
+  rw [hw'] at hw
+  simp only [Except.ok.injEq] at hw
+  subst hw
+  refine ⟨?_, out ++ [none], hw', ?_⟩
+  · have hl : ((labels (origin a.1) c.P (out ++ [none]).length).zip (out ++ [none])).length = out.length + 1 := by
+      simp [labels]
+    rw [hl]; push_cast; omega
+  · intro i t o hi
+    rw [List.getElem?_zip_eq_some] at hi
+    obtain ⟨h1, h2⟩ := hi
+    have hlt : i < (out ++ [none]).length := by
+      by_contra hcon
+      rw [List.getElem?_eq_none (by omega)] at h2
+      exact absurd h2 (by simp)
+    rw [labels_getElem? _ _ _ _ hlt, freqSec_eq_period c hc] at h1
+    exact ⟨by simpa [perS] using h1.symm, h2⟩
+
+/-- **A missing value in the returned series has a cause** (every label but the last): the period it labels
+extends past the last observation, or an invalid interval overlaps or touches it. -/
+theorem series_missing_has_cause (c : Cfg α) (hc : CfgOK c) (hgap : 3600 ≤ c.maxgap) (a b : Obs α)
+    (rest : List (Obs α)) (hs : Sorted (a :: b :: rest))
+    (hn : 1 ≤ nvalhOf a.1 (lastTime (a :: b :: rest)) c.P)
+    (ser : List (Int × Option α)) (hw : wrapperSeries c (a :: b :: rest) = .ok ser)
+    (i : Nat) (t : Int) (hi : ser[i]? = some (t, none)) (hnl : i + 1 < ser.length) :
+    lastTime (a :: b :: rest) < t + c.P ∨
+      ∃ p ∈ pairs (a :: b :: rest), p.1.1 < t + c.P ∧ t ≤ p.2.1 ∧ invalid c p.1 p.2 = true := by
+  obtain ⟨hlen, res, hres, hall⟩ := series_labels_are_period_starts c hc hgap a b rest hs hn ser hw
+  obtain ⟨ht, hri⟩ := hall i t none hi
+  obtain ⟨_, h2, hrl, out, hk, rfl⟩ := wrapper_is_kernel_plus_final c hc hgap a b rest hs hn _ res hres
+  have hio : i < out.length := by
+    have : (out ++ [none]).length = ser.length := by
+      have := hlen; rw [← hrl] at this; exact_mod_cast this.symm
+    simp at this; omega
+  rw [List.getElem?_append_left hio] at hri
+  have := missing_has_cause c hc (origin a.1) _ a b rest hs h2 out hk i hri
+  rw [ht]
+  simpa [perS, perE] using this
+
+end field
+
+/-- **Clause 1 on the returned object.** Over the reals, without the rainfall flag: whenever the series
+`dutils.var2h` returns holds the pair `(t, h)` with `h` not missing, `h` is the integral of the piecewise-linear
+interpolant of the observations over `[t, t + P]`, divided by `P`. -/
+theorem series_value_is_average_over_its_period (c : Cfg ℝ) (hc : CfgOK c) (hr : c.rain = 0)
+    (hgap : 3600 ≤ c.maxgap) (a b : Obs ℝ) (rest : List (Obs ℝ)) (hs : Sorted (a :: b :: rest))
+    (hn : 1 ≤ nvalhOf a.1 (lastTime (a :: b :: rest)) c.P)
+    (ser : List (Int × Option ℝ)) (hw : wrapperSeries c (a :: b :: rest) = .ok ser)
+    (t : Int) (h : ℝ) (hm : (t, some h) ∈ ser) :
+    h = (∫ x in ((t : Int) : ℝ)..((t + c.P : Int) : ℝ), interp (a :: b :: rest) x) / (c.P : ℝ) := by
+  obtain ⟨_, res, hres, hall⟩ := series_labels_are_period_starts c hc hgap a b rest hs hn ser hw
+  obtain ⟨i, hi⟩ := List.mem_iff_getElem?.mp hm
+  obtain ⟨ht, hri⟩ := hall i t (some h) hi
+  have := (wrapper_value_is_average_of_interpolant c hc hr hgap a b rest hs hn _ res hres i h hri).2
+  rw [ht]
+  exact this
+
+section anyarith
+variable {α : Type} [Add α] [Sub α] [Mul α] [Div α] [Neg α] [LT α] [DecidableLT α]
+  [OfNat α 0] [OfNat α 2] [IntCast α]
+
+/-! ### the kernel on the caller's buffer, the Cython entry point, call histories
+
+No law of the arithmetic is used: these hold for every instance of the model, `Float` included. -/
+
+/-- **The kernel writes `hvalues[0 .. nvalh-2]` and nothing else**: after a successful call the buffer holds the
+kernel's values followed by whatever it held before — so the answer does not depend on what an earlier call
+left in the buffer, and `hvalues[nvalh-1]` (the final period) is not written. -/
+theorem kernel_writes_prefix_only (c : Cfg α) (hstart nvalh : Int) (obs : List (Obs α)) (buf out : List (Option α))
+    (hk : kernel c hstart nvalh obs = .ok out) (hlen : (nvalh - 1).toNat ≤ buf.length) :
+    kernelInto c hstart nvalh obs buf = (out ++ buf.drop out.length, none) :=
+  kernelInto_of_ok c hstart nvalh obs buf out hk hlen
+
+/-- the final period keeps the value the caller put there (`dutils.var2h`: NaN) -/
+theorem kernel_final_period_untouched (c : Cfg α) (hstart nvalh : Int) (obs : List (Obs α))
+    (buf out : List (Option α)) (hk : kernel c hstart nvalh obs = .ok out) (hlen : (nvalh - 1).toNat < buf.length) :
+    (kernelInto c hstart nvalh obs buf).1[(nvalh - 1).toNat]? = buf[(nvalh - 1).toNat]? := by
+  have hol : out.length = (nvalh - 1).toNat := by
+    unfold kernel at hk
+    split at hk
+    · exact absurd hk (by simp)
+    · split at hk
+      · exact absurd hk (by simp)
+      · split at hk
+        · exact absurd hk (by simp)
+        · exact loop_length c hstart _ _ _ _ hk
+  rw [kernelInto_of_ok c hstart nvalh obs buf out hk (by omega), ← hol]
+  rw [List.getElem?_append_right (le_refl _), List.getElem?_drop]
+  simp
+
+/-- two calls with the same arguments on buffers holding different stale values return the same values -/
+theorem kernel_stale_buffer_irrelevant (c : Cfg α) (hstart nvalh : Int) (obs : List (Obs α))
+    (buf1 buf2 out : List (Option α)) (hk : kernel c hstart nvalh obs = .ok out)
+    (h1 : (nvalh - 1).toNat ≤ buf1.length) (h2 : (nvalh - 1).toNat ≤ buf2.length) :
+    (kernelInto c hstart nvalh obs buf1).1.take out.length = out ∧
+    (kernelInto c hstart nvalh obs buf2).1.take out.length = out := by
+  rw [kernelInto_of_ok c hstart nvalh obs buf1 out hk h1, kernelInto_of_ok c hstart nvalh obs buf2 out hk h2]
+  simp
+
+/-- the return code is non-zero exactly when the kernel (as a function) fails, with the same guard -/
+theorem kernel_return_code (c : Cfg α) (hstart nvalh : Int) (obs : List (Obs α)) (buf : List (Option α)) :
+    (kernelInto c hstart nvalh obs buf).2 =
+      (match kernel c hstart nvalh obs with | .ok _ => none | .error x => some x) :=
+  kernelInto_err c hstart nvalh obs buf
+
+/-- **A call rejected by a guard before the loop leaves the buffer as it was** (bad rainfall flag, bad
+period, origin before the first stamp / fewer than two observations). -/
+theorem kernel_guard_error_leaves_buffer (c : Cfg α) (hstart nvalh : Int) (obs : List (Obs α))
+    (buf : List (Option α))
+    (h : (c.rain < 0 ∨ 1 < c.rain) ∨ (c.P ≠ 1800 ∧ c.P ≠ 3600) ∨ startScan hstart obs = none) :
+    (kernelInto c hstart nvalh obs buf).1 = buf ∧ (kernelInto c hstart nvalh obs buf).2 ≠ none := by
+  unfold kernelInto
+  by_cases h1 : c.rain < 0 ∨ 1 < c.rain
+  · simp [h1]
+  · by_cases h2 : c.P ≠ 1800 ∧ c.P ≠ 3600
+    · simp [h1, h2]
+    · have h3 : startScan hstart obs = none := by tauto
+      simp [h1, h2, h3]
+
+/-- whatever happens, the buffer keeps its length (nothing is written past `hvalues`) -/
+theorem kernel_buffer_length (c : Cfg α) (hstart nvalh : Int) (obs : List (Obs α)) (buf : List (Option α)) :
+    (kernelInto c hstart nvalh obs buf).1.length = buf.length :=
+  kernelInto_length c hstart nvalh obs buf
+
+/-- the Cython entry point rejects value and stamp arrays of different lengths and touches nothing -/
+theorem pyx_rejects_length_mismatch (c : Cfg α) (hstart : Int) (varsec : List Int) (varvalues hv : List (Option α))
+    (h : varsec.length ≠ varvalues.length) :
+    pyxVar2h c hstart varsec varvalues hv = (hv, some .lengthMismatch) := by
+  simp [pyxVar2h, h]
+
+/-- the Cython entry point: `nvalh` is the length of `hvalues`; on success the buffer holds the kernel's
+`nvalh - 1` values followed by its old last cell -/
+theorem pyx_is_kernel (c : Cfg α) (hstart : Int) (varsec : List Int) (varvalues hv out : List (Option α))
+    (h : varsec.length = varvalues.length)
+    (hk : kernel c hstart (hv.length : Int) (varsec.zip varvalues) = .ok out) :
+    pyxVar2h c hstart varsec varvalues hv = (out ++ hv.drop out.length, none) := by
+  simp only [pyxVar2h, h, ne_eq, not_true_eq_false, if_false]
+  exact kernelInto_of_ok c hstart _ _ hv out hk (by omega)
+
+/-- a call never changes the stamps or the values, and keeps the size of `hvalues` -/
+theorem call_keeps_inputs (s : Bufs α) (c : Cfg α) (hstart : Int) :
+    (step s (.call c hstart)).1.varsec = s.varsec ∧ (step s (.call c hstart)).1.varvalues = s.varvalues ∧
+      (step s (.call c hstart)).1.hvalues.length = s.hvalues.length := by
+  refine ⟨rfl, rfl, ?_⟩
+  simp only [step, pyxVar2h]
+  split
+  · rfl
+  · exact kernelInto_length _ _ _ _ _
+
+/-- **Histories.** After ANY history `ops` on one set of buffers (edits of stamps and values, scribbling over the
+output, earlier calls with other arguments, rejected calls), one more call answers with the kernel's values for
+the arrays as they are now: `hvalues` = those values followed by the old last cell, return code 0. -/
+theorem history_answer (s : Bufs α) (ops : List (Op α)) (c : Cfg α) (hstart : Int) (out : List (Option α))
+    (hlen : (run s ops).1.varsec.length = (run s ops).1.varvalues.length)
+    (hk : kernel c hstart ((run s ops).1.hvalues.length : Int)
+      ((run s ops).1.varsec.zip (run s ops).1.varvalues) = .ok out) :
+    (run s (ops ++ [.call c hstart])).1.hvalues = out ++ (run s ops).1.hvalues.drop out.length ∧
+    (run s (ops ++ [.call c hstart])).1.varsec = (run s ops).1.varsec ∧
+    (run s (ops ++ [.call c hstart])).1.varvalues = (run s ops).1.varvalues ∧
+    (run s (ops ++ [.call c hstart])).2.getLast? = some none := by
+  rw [run_append]
+  simp only [run, step]
+  rw [pyx_is_kernel c hstart _ _ _ out hlen hk]
+  simp
+
+end anyarith
+
+section field
+set_option linter.unusedSectionVars false
+variable {α : Type} [Field α] [LinearOrder α] [IsStrictOrderedRing α]
+
+/-- **Histories, with the property.** After any history on one set of buffers, if the arrays now hold a
+non-decreasing series of at least two observations starting at or before the origin, a call succeeds and every
+value it writes is what the property requires of that period *for the arrays as they are now*. -/
+theorem history_call_values_as_required (c : Cfg α) (hc : CfgOK c) (s : Bufs α) (ops : List (Op α)) (hstart : Int)
+    (a b : Obs α) (rest : List (Obs α))
+    (hlen : (run s ops).1.varsec.length = (run s ops).1.varvalues.length)
+    (hcur : (run s ops).1.varsec.zip (run s ops).1.varvalues = a :: b :: rest)
+    (hs : Sorted (a :: b :: rest)) (ha : a.1 ≤ hstart) :
+    ∃ out, (run s (ops ++ [.call c hstart])).1.hvalues = out ++ (run s ops).1.hvalues.drop out.length ∧
+      (run s (ops ++ [.call c hstart])).2.getLast? = some none ∧
+      out.length = (run s ops).1.hvalues.length - 1 ∧
+      ∀ i o, out[i]? = some o → PeriodOK c (a :: b :: rest) (perS c.P hstart i) (perE c.P hstart i) o := by
+  obtain ⟨out, hk, hol, hall⟩ := kernel_spec c hc hstart ((run s ops).1.hvalues.length : Int) a b rest hs ha
+  rw [← hcur] at hk
+  obtain ⟨h1, _, _, h4⟩ := history_answer s ops c hstart out hlen hk
+  exact ⟨out, h1, h4, by omega, hall⟩
+
+end field
+
+
+section anyarith
+set_option linter.unusedSectionVars false
+variable {α : Type} [Add α] [Sub α] [Mul α] [Div α] [Neg α] [LT α] [DecidableLT α]
+  [OfNat α 0] [OfNat α 2] [IntCast α]
+
+/-! ### which periods are missing does not depend on rounding
+
+`α` is ANY number system (no field law, no law relating `*` and `/` to anything): the only assumption is `ExactInt α R`
+— whole seconds in the range `R` are cast, compared, added and subtracted exactly — and that the stamps, the period
+boundaries, the interval lengths and `maxgapsec` lie in `R` (`InRange`).  True of IEEE doubles with
+`R x := |x| ≤ 2^53`. -/
+
+/-- **The missing pattern is decided in whole-second arithmetic.** In any such arithmetic the kernel fails with the
+same guard as, or marks as missing exactly the periods marked by, the control skeleton `kernelMiss` run on the
+`marks` (stamp, "the interval ending here fails the kernel's validity test") of the observations. -/
+theorem missing_pattern_is_skeleton {R : Int → Prop} (hx : ExactInt α R) (c : Cfg α) (hstart nvalh : Int)
+    (obs : List (Obs α)) (hr : InRange R c hstart nvalh obs) :
+    Except.map (List.map Option.isNone) (kernel c hstart nvalh obs) =
+      kernelMiss c.P c.rain hstart nvalh (marks c obs) :=
+  kernel_pattern_eq hx c hstart nvalh obs hr.stamps hr.period hr.per
+
+/-- **Same missing pattern as exact arithmetic.** The kernel run in `α` and the kernel run on exact rationals (on
+stand-in values of the same validity class) return the same error or the same missing pattern: rounding of
+`+ − × ÷` cannot move a period between "missing" and "returned". -/
+theorem missing_pattern_same_as_exact {R : Int → Prop} (hx : ExactInt α R) (c : Cfg α) (hstart nvalh : Int)
+    (obs : List (Obs α)) (hr : InRange R c hstart nvalh obs) :
+    Except.map (List.map Option.isNone) (kernel c hstart nvalh obs) =
+      Except.map (List.map Option.isNone) (kernel (cfgQ c) hstart nvalh (obs.map (toQ c))) :=
+  kernel_pattern_toQ hx c hstart nvalh obs hr
+
+/-- `kernel_total` without a field: no error, `nvalh - 1` values, in any arithmetic with exact whole seconds -/
+theorem kernel_total_any_arith {R : Int → Prop} (hx : ExactInt α R) (c : Cfg α) (hP : c.P = 1800 ∨ c.P = 3600)
+    (hrain : c.rain = 0 ∨ c.rain = 1) (hstart nvalh : Int) (a b : Obs α) (rest : List (Obs α))
+    (hs : Sorted (a :: b :: rest)) (ha : a.1 ≤ hstart) (hr : InRange R c hstart nvalh (a :: b :: rest)) :
+    ∃ out, kernel c hstart nvalh (a :: b :: rest) = .ok out ∧ out.length = (nvalh - 1).toNat := by
+  have hcq : CfgOK (cfgQ c) := ⟨hP, hrain, by norm_num [cfgQ], by norm_num [cfgQ]⟩
+  obtain ⟨outQ, hkQ, hlenQ⟩ := kernel_total (cfgQ c) hcq hstart nvalh (toQ c a) (toQ c b) (rest.map (toQ c))
+    (sorted_map_toQ c _ hs) ha
+  obtain ⟨out, hk, hpat⟩ := pattern_ok _ _ (kernel_pattern_toQ hx c hstart nvalh _ hr) outQ hkQ
+  refine ⟨out, hk, ?_⟩
+  have := congrArg List.length hpat
+  simpa [hlenQ] using this
+
+/-- `missing_has_cause` without a field: in any arithmetic with exact whole seconds, a period the kernel marks as
+missing extends past the last observation or is overlapped or touched by an interval that fails the kernel's
+validity test (evaluated in that arithmetic). -/
+theorem missing_has_cause_any_arith {R : Int → Prop} (hx : ExactInt α R) (c : Cfg α) (hP : c.P = 1800 ∨ c.P = 3600)
+    (hrain : c.rain = 0 ∨ c.rain = 1) (hstart nvalh : Int) (a b : Obs α) (rest : List (Obs α))
+    (hs : Sorted (a :: b :: rest)) (ha : a.1 ≤ hstart) (hr : InRange R c hstart nvalh (a :: b :: rest))
+    (out : List (Option α)) (hk : kernel c hstart nvalh (a :: b :: rest) = .ok out)
+    (i : Nat) (hi : out[i]? = some none) :
+    lastTime (a :: b :: rest) < perE c.P hstart i ∨
+      ∃ p ∈ pairs (a :: b :: rest), p.1.1 < perE c.P hstart i ∧ perS c.P hstart i ≤ p.2.1 ∧
+        invalid c p.1 p.2 = true := by
+  have hcq : CfgOK (cfgQ c) := ⟨hP, hrain, by norm_num [cfgQ], by norm_num [cfgQ]⟩
+  obtain ⟨outQ, hkQ, _⟩ := kernel_total (cfgQ c) hcq hstart nvalh (toQ c a) (toQ c b) (rest.map (toQ c))
+    (sorted_map_toQ c _ hs) ha
+  obtain ⟨out', hk', hpat⟩ := pattern_ok _ _ (kernel_pattern_toQ hx c hstart nvalh _ hr) outQ hkQ
+  rw [hk] at hk'; cases hk'
+  obtain ⟨y, hy, hyn⟩ := pattern_get out outQ hpat i none hi
+  have hyq : outQ[i]? = some none := by
+    cases y with
+    | none => exact hy
+    | some v => simp at hyn
+  have := missing_has_cause (cfgQ c) hcq hstart nvalh (toQ c a) (toQ c b) (rest.map (toQ c))
+    (sorted_map_toQ c _ hs) ha outQ hkQ i hyq
+  have hlt := lastTime_map_toQ c (a :: b :: rest)
+  have hpm := pairs_map_toQ c (a :: b :: rest)
+  simp only [List.map_cons] at hlt hpm
+  rw [hlt, hpm] at this
+  rcases this with h | ⟨p, hp, h1, h2, h3⟩
+  · exact Or.inl h
+  · obtain ⟨q, hq, rfl⟩ := List.mem_map.mp hp
+    have hm := mem_pairs hq
+    refine Or.inr ⟨q, hq, h1, h2, ?_⟩
+    rw [← invalid_toQ hx c q.1 q.2 (hr.stamps _ hm.1) (hr.stamps _ hm.2) hr.gap (hr.diff q hq)]
+    exact h3
+
+/-- `invalid_overlap_makes_missing` without a field: in any arithmetic with exact whole seconds, an interval that
+fails the validity test and overlaps a period makes it missing. -/
+theorem invalid_overlap_makes_missing_any_arith {R : Int → Prop} (hx : ExactInt α R) (c : Cfg α)
+    (hP : c.P = 1800 ∨ c.P = 3600) (hrain : c.rain = 0 ∨ c.rain = 1) (hstart nvalh : Int) (a b : Obs α)
+    (rest : List (Obs α)) (hs : Sorted (a :: b :: rest)) (ha : a.1 ≤ hstart)
+    (hr : InRange R c hstart nvalh (a :: b :: rest))
+    (out : List (Option α)) (hk : kernel c hstart nvalh (a :: b :: rest) = .ok out)
+    (i : Nat) (o : Option α) (hi : out[i]? = some o)
+    (p : Obs α × Obs α) (hp : p ∈ pairs (a :: b :: rest))
+    (h1 : p.1.1 < perE c.P hstart i) (h2 : perS c.P hstart i < p.2.1) (hinv : invalid c p.1 p.2 = true) :
+    o = none := by
+  have hcq : CfgOK (cfgQ c) := ⟨hP, hrain, by norm_num [cfgQ], by norm_num [cfgQ]⟩
+  obtain ⟨outQ, hkQ, _⟩ := kernel_total (cfgQ c) hcq hstart nvalh (toQ c a) (toQ c b) (rest.map (toQ c))
+    (sorted_map_toQ c _ hs) ha
+  obtain ⟨out', hk', hpat⟩ := pattern_ok _ _ (kernel_pattern_toQ hx c hstart nvalh _ hr) outQ hkQ
+  rw [hk] at hk'; cases hk'
+  obtain ⟨y, hy, hyn⟩ := pattern_get out outQ hpat i o hi
+  have hm := mem_pairs hp
+  have hpq : (toQ c p.1, toQ c p.2) ∈ pairs (toQ c a :: toQ c b :: rest.map (toQ c)) := by
+    have hpm := pairs_map_toQ c (a :: b :: rest)
+    simp only [List.map_cons] at hpm
+    rw [hpm]
+    exact List.mem_map.mpr ⟨p, hp, rfl⟩
+  have hy0 : y = none := invalid_overlap_makes_missing (cfgQ c) hcq hstart nvalh (toQ c a) (toQ c b)
+    (rest.map (toQ c)) (sorted_map_toQ c _ hs) ha outQ hkQ i y hy (toQ c p.1, toQ c p.2) hpq h1 h2
+    (by rw [invalid_toQ hx c p.1 p.2 (hr.stamps _ hm.1) (hr.stamps _ hm.2) hr.gap (hr.diff p hp)]; exact hinv)
+  subst hy0
+  cases o with
+  | none => rfl
+  | some v => simp at hyn
+
+end anyarith
+
+
+section anyarith
+set_option linter.unusedSectionVars false
+variable {α : Type} [Add α] [Sub α] [Mul α] [Div α] [Neg α] [LT α] [DecidableLT α]
+  [OfNat α 0] [OfNat α 2] [IntCast α]
+
+/-- `valid_data_gives_value` without a field: if the data reach the end of the period and every interval that overlaps
+or touches it passes the validity test, a value is returned — in any arithmetic with exact whole seconds. -/
+theorem valid_data_gives_value_any_arith {R : Int → Prop} (hx : ExactInt α R) (c : Cfg α)
+    (hP : c.P = 1800 ∨ c.P = 3600) (hrain : c.rain = 0 ∨ c.rain = 1) (hstart nvalh : Int) (a b : Obs α)
+    (rest : List (Obs α)) (hs : Sorted (a :: b :: rest)) (ha : a.1 ≤ hstart)
+    (hr : InRange R c hstart nvalh (a :: b :: rest))
+    (out : List (Option α)) (hk : kernel c hstart nvalh (a :: b :: rest) = .ok out)
+    (i : Nat) (o : Option α) (hi : out[i]? = some o)
+    (hcov : perE c.P hstart i ≤ lastTime (a :: b :: rest))
+    (hvalid : ∀ p ∈ pairs (a :: b :: rest), p.1.1 < perE c.P hstart i → perS c.P hstart i ≤ p.2.1 →
+      invalid c p.1 p.2 = false) :
+    ∃ h, o = some h := by
+  cases o with
+  | some h => exact ⟨h, rfl⟩
+  | none =>
+    exfalso
+    rcases missing_has_cause_any_arith hx c hP hrain hstart nvalh a b rest hs ha hr out hk i hi with
+      h | ⟨p, hp, h1, h2, h3⟩
+    · omega
+    · rw [hvalid p hp h1 h2] at h3; exact absurd h3 (by simp)
+
+/-- the labelled series does not depend on the storage unit or the time zone of the index either -/
+theorem series_index_independence (c : Cfg α) (u : TUnit) (l : List (Int × Int × Option α)) :
+    seriesIdx c u (l.map fun x => ((x.1 - x.2.1) * u.perSec, x.2.1, x.2.2)) =
+      wrapperSeries c (l.map fun x => (x.1, x.2.2)) := by
+  unfold seriesIdx obsOfIndex
+  congr 1
+  rw [List.map_map]
+  apply List.map_congr_left
+  intro x _
+  simp [wallSec_whole]
+
+end anyarith
+
+section field
+set_option linter.unusedSectionVars false
+variable {α : Type} [Field α] [LinearOrder α] [IsStrictOrderedRing α]
+
+/-- `Sorted` is needed: two observations in decreasing order are rejected by the kernel's own guard as soon as
+one period is computed (`t2 < t1` met during the walk) -/
+theorem kernel_rejects_decreasing_pair (c : Cfg α) (hc : CfgOK c) (hstart nvalh : Int) (a b : Obs α)
+    (ha : a.1 ≤ hstart) (hba : b.1 < a.1) (hn : 2 ≤ nvalh) :
+    kernel c hstart nvalh [a, b] = .error .decreasing := by
+  have h1 : ¬ (c.rain < 0 ∨ 1 < c.rain) := by rcases hc.rain with h | h <;> omega
+  have h2 : ¬ (c.P ≠ 1800 ∧ c.P ≠ 3600) := by rcases hc.period with h | h <;> omega
+  obtain ⟨k, hk⟩ : ∃ k, (nvalh - 1).toNat = k + 1 := ⟨(nvalh - 1).toNat - 1, by omega⟩
+  have hP := hc.P_pos
+  have hae : ((a.1 : Int) : α) < ((hstart + ((0 : Nat) : Int) * c.P + c.P : Int) : α) := by
+    exact_mod_cast (by push_cast; omega : a.1 < hstart + ((0 : Nat) : Int) * c.P + c.P)
+  have hlt : ((b.1 : Int) : α) < ((a.1 : Int) : α) := by exact_mod_cast hba
+  simp only [kernel, h1, h2, if_false, startScan, ha, if_true, scanFrom, hk, loop, period, pEnd_eq, hae, walk, hlt]
+
+end field
+
+/-! ### the `maxgapsec` argument as passed (int or float) -/
+
+/-- `np.int32(maxgapsec)` truncates a float argument; against whole-second interval lengths the truncated value
+decides "longer than maxgapsec" exactly as the number that was passed -/
+theorem maxgap_truncation_harmless (q : ℚ) (hq : 0 ≤ q) (g : Int) : maxgapOfArg q < g ↔ q < (g : ℚ) := by
+  have hnum : 0 ≤ q.num := Rat.num_nonneg.mpr hq
+  unfold maxgapOfArg
+  rw [Int.tdiv_eq_ediv_of_nonneg hnum, ← Rat.floor_def', Int.floor_lt]
+
+section field
+set_option linter.unusedSectionVars false
+variable {α : Type} [Field α] [LinearOrder α] [IsStrictOrderedRing α]
+
+/-- the wrapper called with a non-integer `maxgapsec`: an interval with present, non-negative end values is invalid
+exactly when it is longer than the number passed -/
+theorem gap_test_with_float_maxgap (P rain : Int) (q : ℚ) (hq : 0 ≤ q) (eps : α) (heps : 0 ≤ eps) (a b : Obs α)
+    (v1 v2 : α) (h1 : a.2 = some v1) (h2 : b.2 = some v2) (p1 : 0 ≤ v1) (p2 : 0 ≤ v2) :
+    invalid (⟨P, rain, maxgapOfArg q, eps⟩ : Cfg α) a b = true ↔ q < ((b.1 - a.1 : Int) : ℚ) := by
+  rw [invalid_iff, ← maxgap_truncation_harmless q hq]
+  simp only [h1, h2, reduceCtorEq, Option.some.injEq, false_or]
+  constructor
+  · rintro (⟨v, rfl, hv⟩ | ⟨v, rfl, hv⟩ | h)
+    · exact absurd hv (by simp only [not_lt]; linarith)
+    · exact absurd hv (by simp only [not_lt]; linarith)
+    · exact h
+  · intro h; exact Or.inr (Or.inr h)
+
+end field
+
 /-! ### the hypotheses are satisfiable: one worked series (exact rationals)
 
 hourly output from 01:00, `maxgapsec = 7200`: stamps on period boundaries, a duplicate stamp (jump 8 → 6 at
@@ -792,5 +1241,107 @@ example : (6 : ℝ) =
     [some 6] (by
       simp [kernel, startScan, scanFrom, loop, period, walk, pStart, pEnd, invalid, piece, clipLo, clipHi, addPiece]
       norm_num) 0 6 rfl
+
+
+/-! ### examples for the returned series, the buffer, histories and the arithmetic-free missing pattern -/
+
+/-- `series_labels_are_period_starts`, `series_missing_has_cause`: hourly labels 01:00, 02:00, … each with its value -/
+example : wrapperSeries exCfg exObs =
+    .ok [(3600, some 6), (7200, some 6), (10800, none), (14400, none), (18000, none), (21600, none), (25200, none),
+      (28800, none), (32400, none), (36000, none), (39600, some 4), (43200, none)] := by decide +kernel
+
+/-- half-hourly: the labels are 1800 s apart (`freqSec`), the same data -/
+example : wrapperSeries { exCfg with P := 1800 } [(0, some 0), (3600, some 4), (7200, some 8), (9000, some 8)] =
+    .ok [(3600, some 5), (5400, some 7), (7200, some 8), (9000, none), (10800, none)] := by decide +kernel
+
+/-- `series_index_independence`: stored in milliseconds, 9 h 30 min ahead of UTC -/
+example : seriesIdx exCfg .ms [(0 - 34200000, 34200, some 0), (3600000 - 34200000, 34200, some 4),
+      (7200000 - 34200000, 34200, some 8), (10800000 - 34200000, 34200, some 8)] =
+    .ok [(3600, some 6), (7200, some 8), (10800, none)] := by decide +kernel
+
+/-- `series_value_is_average_over_its_period` on real data: the pair `(3600, 6)` -/
+example : wrapperSeries (⟨3600, 0, 432000, 1 / 100000000⟩ : Cfg ℝ) [(0, some 0), (3600, some 4), (7200, some 8)] =
+    .ok [(3600, some 6), (7200, none)] := by
+  simp [wrapperSeries, wrapper, nvalhOf, origin, kernel, startScan, scanFrom, loop, period, walk, pStart, pEnd, invalid,
+    piece, clipLo, clipHi, addPiece, labels, freqSec]
+  norm_num
+  rfl
+
+/-- `kernel_writes_prefix_only`, `kernel_final_period_untouched`, `kernel_stale_buffer_irrelevant`: `nvalh = 3`
+on a buffer of stale 99s — two values written, the third cell (the final period) and the fourth keep their 99 -/
+example : kernelInto exCfg 3600 3 exObs [some 99, some 99, some 99, some 99] =
+    ([some 6, some 6, some 99, some 99], none) := by decide +kernel
+
+/-- `kernel_guard_error_leaves_buffer`: origin before the first stamp -/
+example : kernelInto exCfg (-1) 3 exObs [some 99, none, some 7] = ([some 99, none, some 7], some .startBeforeData) := by
+  decide +kernel
+
+/-- `kernel_return_code` on the `decreasing` return in the middle of the loop: period 0 written, period 1 set to NaN -/
+example : kernelInto exCfg 3600 4 [(0, some 0), (3600, some 4), (7200, some 8), (7100, some 8), (20000, some 1)]
+    [some 99, some 99, some 99, some 99] = ([some 6, none, some 99, some 99], some .decreasing) := by decide +kernel
+
+/-- `pyx_rejects_length_mismatch`, `pyx_is_kernel` -/
+example : pyxVar2h exCfg 3600 [0, 3600, 7200] [some 0, some 4] [some 99, some 99] =
+    ([some 99, some 99], some .lengthMismatch) := by decide +kernel
+example : pyxVar2h exCfg 3600 [0, 3600, 7200, 10800] [some 0, some 4, some 8, some 8] [some 99, some 99, some 99] =
+    ([some 6, some 8, some 99], none) := by decide +kernel
+
+/-- `history_answer`, `history_call_values_as_required`, `call_keeps_inputs`: call, edit a value, scribble over the
+output, a rejected call (origin before the data), another call — the last answer is the kernel's for the edited
+arrays, whatever happened before -/
+example : run (⟨[0, 3600, 7200, 10800], [some 0, some 4, some 8, some 8], [some 99, some 99, some 99]⟩ : Bufs ℚ)
+      [.call exCfg 3600, .setVal 1 (some 6), .scribble (some 1), .call exCfg (-5), .call exCfg 3600] =
+    (⟨[0, 3600, 7200, 10800], [some 0, some 6, some 8, some 8], [some 7, some 8, some 1]⟩,
+      [none, none, none, some .startBeforeData, none]) := by decide +kernel
+
+/-- `kernel_rejects_decreasing_pair`; and a decreasing pair that the walk never meets is NOT rejected (which is why
+`Sorted` is a hypothesis of the theorems and not a consequence of the kernel's guard) -/
+example : kernel exCfg 3600 2 [(100, some 1), (50, some 1)] = .error .decreasing := by decide +kernel
+example : kernel exCfg 3600 2 [(0, some 1), (100, some 1), (50, some 1), (3000, some 1), (9000, some 1)] =
+    .ok [some 1] := by decide +kernel
+
+/-- `ExactInt`: exact rationals, and an arithmetic that rounds every operation to multiples of 1/8 -/
+example : ExactInt ℚ (fun _ => True) := exactInt_rat
+example : ExactInt Rnd8 (fun _ => True) := Rnd8.exactInt
+
+/-- the worked series in the rounded arithmetic `Rnd8` (two more observations so that the last periods have values) -/
+def exObs8 : List (Obs Rnd8) :=
+  [(0, some ⟨0⟩), (1800, some ⟨2⟩), (3600, some ⟨4⟩), (7200, some ⟨8⟩), (7200, some ⟨6⟩), (10800, some ⟨6⟩),
+   (21600, some ⟨6⟩), (25200, none), (28800, some ⟨1⟩), (32400, some ⟨-1⟩), (36000, some ⟨3⟩), (39600, some ⟨3⟩),
+   (43200, some ⟨5⟩), (45000, some ⟨7⟩), (46800, some ⟨4⟩)]
+def exCfg8 : Cfg Rnd8 := ⟨3600, 0, 7200, ⟨1 / 100000000⟩⟩
+
+/-- `InRange` with the range of IEEE doubles, `|x| ≤ 2^53` -/
+example : InRange (fun x => -9007199254740992 ≤ x ∧ x ≤ 9007199254740992) exCfg8 3600 13 exObs8 where
+  stamps := by decide +kernel
+  diff := by decide +kernel
+  period := by decide +kernel
+  gap := by decide +kernel
+  per := by
+    intro k hk
+    have : (exCfg8.P : Int) = 3600 := rfl
+    rw [this]
+    constructor <;> constructor <;> omega
+
+/-- rounding changes the VALUES: `Rnd8` returns 4, 6, …, 3, −201/4 where exact arithmetic returns 6, 6, …, 4, 23/4 … -/
+example : (kernel exCfg8 3600 13 exObs8).toOption.map (List.map (Option.map Rnd8.val)) =
+    some [some 4, some 6, none, none, none, none, none, none, none, none, some 3, some (-201 / 4)] := by decide +kernel
+example : kernel (cfgQ exCfg8) 3600 13 (exObs8.map fun x => (x.1, x.2.map Rnd8.val)) =
+    .ok [some 6, some 6, none, none, none, none, none, none, none, none, some 4, some (23 / 4)] := by decide +kernel
+
+/-- … but not the missing pattern (`missing_pattern_is_skeleton`, `missing_pattern_same_as_exact`,
+`missing_has_cause_any_arith`, `invalid_overlap_makes_missing_any_arith`, `kernel_total_any_arith`): the kernel in
+`Rnd8`, the control skeleton on the marks, and the exact kernel on the stand-in series agree -/
+example : Except.map (List.map Option.isNone) (kernel exCfg8 3600 13 exObs8) =
+    .ok [false, false, true, true, true, true, true, true, true, true, false, false] := by decide +kernel
+example : kernelMiss exCfg8.P exCfg8.rain 3600 13 (marks exCfg8 exObs8) =
+    .ok [false, false, true, true, true, true, true, true, true, true, false, false] := by decide +kernel
+example : Except.map (List.map Option.isNone) (kernel (cfgQ exCfg8) 3600 13 (exObs8.map (toQ exCfg8))) =
+    .ok [false, false, true, true, true, true, true, true, true, true, false, false] := by decide +kernel
+
+/-- `maxgap_truncation_harmless`, `gap_test_with_float_maxgap`: `maxgapsec = 5400.9` acts as 5400, 36000.5 as 36000 -/
+example : maxgapOfArg (54009 / 10) = 5400 := by decide +kernel
+example : wrapperArg 3600 0 (72001 / 2) (1 / 100000000 : ℚ) exObs = wrapper { exCfg with maxgap := 36000 } exObs := by
+  decide +kernel
 
 end HydroVerif.C14
